@@ -160,7 +160,10 @@ def concretise(beh, rng, move_join=None):
             op = []
             for _ in range(e['n']):
                 op.append({'k': 'k%d' % rng.randint(1, 3), 'v': rng.choice(['TOMB', 'TOMB'] + ['v%d' % i for i in range(1, 10)])})
-            steps.append({'a': 'w', 'op': op})
+            # a batch reaches the log through Transaction.Commit or through Engine.ApplyBatch, whose entries may carry no number
+            # ("ab") or the number the batch is about to get ("abn") in their SequenceNumber field
+            api = 'w' if e['n'] == 1 else rng.choice(['w', 'w', 'ab', 'abn'])
+            steps.append({'a': api, 'op': op})
         elif e['a'] == 'sync':
             steps.append({'a': 'sleep', 'ms': rng.choice([60, 150, 400, 1200])})
         else:
@@ -185,7 +188,17 @@ def fixed_scenarios():
     flush_between = [{'a': 'join'}, {'a': 'sleep', 'ms': 1200}, {'a': 'w', 'op': [{'k': 'k1', 'v': 'v1'}]}, {'a': 'w', 'op': [{'k': 'k2', 'v': 'v2'}]},
                      {'a': 'sleep', 'ms': 800}, {'a': 'flush'}, {'a': 'w', 'op': [{'k': 'k3', 'v': 'v3'}]}, {'a': 'flush'},
                      {'a': 'w', 'op': [{'k': 'k1', 'v': 'v4'}, {'k': 'k2', 'v': 'TOMB'}]}, {'a': 'sleep', 'ms': 500}, {'a': 'w', 'op': [{'k': 'k2', 'v': 'v5'}]}]
-    return [('chunk-cuts-batch-join-after', many, 'ascii', 'mid'), ('single-after-idle', single_after_idle, 'binary', 'mid'),
+    t3 = lambda a, b, c: [{'k': 'k1', 'v': a}, {'k': 'k2', 'v': b}, {'k': 'k3', 'v': c}]
+    # batches written WHILE the replica is connected and idle (push path): three 100 KB values exceed the 256 KB limit of the
+    # push batcher; ApplyBatch entries may carry the batch's number
+    big_push = [{'a': 'join'}, {'a': 'sleep', 'ms': 1500}, {'a': 'w', 'op': t3('v1', 'v2', 'v3')}, {'a': 'sleep', 'ms': 600},
+                {'a': 'w', 'op': [{'k': 'k2', 'v': 'v4'}]}, {'a': 'sleep', 'ms': 600}, {'a': 'abn', 'op': t3('v5', 'TOMB', 'v6')},
+                {'a': 'sleep', 'ms': 600}, {'a': 'ab', 'op': t3('v7', 'v8', 'v9')}]
+    numbered = [{'a': 'join'}, {'a': 'sleep', 'ms': 1500}, {'a': 'abn', 'op': t3('v1', 'v2', 'v3')}, {'a': 'sleep', 'ms': 700},
+                {'a': 'w', 'op': [{'k': 'k1', 'v': 'v4'}]}, {'a': 'abn', 'op': t3('TOMB', 'v5', 'v6')}, {'a': 'sleep', 'ms': 400},
+                {'a': 'ab', 'op': t3('v7', 'v8', 'TOMB')}, {'a': 'w', 'op': t3('v9', 'v1', 'v2')}]
+    return [('pushed-batches-over-256KB', big_push, 'huge', 'mid'), ('pushed-applybatch-numbered-entries', numbered, 'ascii', 'mid'),
+            ('chunk-cuts-batch-join-after', many, 'ascii', 'mid'), ('single-after-idle', single_after_idle, 'binary', 'mid'),
             ('pushed-transactions', txn_push, 'ascii', 'mid'), ('flush-between', flush_between, 'ascii', 'mid'),
             ('big-values-join-after', many[60:], 'big', 'bigval')]
 
@@ -278,8 +291,9 @@ def sys_jobs(ctx, n_gen, with_fixed=True, restart=0):
             jobs.append({'name': name, 'steps': steps, 'class': cls, 'cfg': cfgname})
     for i, b in enumerate(gen_sys(ctx, n_gen)):
         mv = [None, 0.5, 1.0, 0.25][i % 4]
-        jobs.append({'name': f'gen{i}', 'steps': concretise(b, rng, mv), 'class': CLASSES[i % 3] if i % 5 else 'ascii',
-                     'cfg': ['mid', 'tiny', 'mid', 'bigval'][i % 4] if CLASSES[i % 3] != 'big' or not i % 5 else 'bigval'})
+        cls = 'huge' if i % 7 == 3 else (CLASSES[i % 3] if i % 5 else 'ascii')
+        jobs.append({'name': f'gen{i}', 'steps': concretise(b, rng, mv), 'class': cls,
+                     'cfg': 'mid' if cls == 'huge' else 'bigval' if cls == 'big' else ['mid', 'tiny', 'mid', 'bigval'][i % 4]})
     if restart:
         for i, b in enumerate(gen_sys(ctx, restart, restart=True)):
             jobs.append({'name': f'restart{i}', 'steps': concretise(b, rng), 'class': 'ascii', 'cfg': 'mid'})
@@ -478,9 +492,9 @@ def check_C14(ctx):
                    'reconnect every replica that has not stalled converges once the primary stops ((<>[](stop /\\ ~stall)) => <>[]Converged) for '
                    'join before/during/after, restart, rotation and batches, also next to a stalled second replica; leaving the observer on '
                    'the first log object violates it. Bound to the code by system scenarios: programs drawn by TLC simulation of GEN_ReplSys '
-                   '(writes, deletes, multi-key transactions, flush = log rotation, join position moved to 0/25/50/100 % of the program, pauses '
+                   '(writes, deletes, multi-key transactions and Engine.ApplyBatch calls (entries un-numbered or carrying the number of the batch), flush = log rotation, join position moved to 0/25/50/100 % of the program, pauses '
                    'where the behaviour has the replica catching up, client writes on the replica) plus regression classes (a 100-entry chunk '
-                   'boundary inside a transaction, a single write after an idle period, pushed transactions, flushes between writes, 40/70 KB '
+                   'boundary inside a transaction, a single write after an idle period, pushed transactions, pushed batches over the 256 KB batcher limit, ApplyBatch with numbered entries, flushes between writes, 40/70 KB '
                    'values, tiny memtables that rotate the log by volume) on a real primary and a real replica over loopback TCP; after '
                    'quiescence full scans are compared until equal (deadline 30 s) and for 3 more samples; the whole trace is validated by TLC '
                    'against TRACE_Repl (level: model_checking for the liveness property, exploration for the scenario space). '
